@@ -228,12 +228,13 @@ def split_extremum(nf, kind):
     if len(ext) != 1:
         return None
     a, k = ext[0]
-    if a.kind != kind or k != 1:
+    # k * min(f, g) = min(k f, k g) for k > 0,  = max(k f, k g) for k < 0 (and symmetrically)
+    if not ((a.kind == kind and k > 0) or (a.kind != kind and k < 0)):
         return None
-    rest = nf - NF.atom(a)
+    rest = nf - NF.atom(a) * k
     out = []
     for arg in a.args:
-        sub = split_extremum(lift(arg) + rest, kind)
+        sub = split_extremum(lift(arg) * k + rest, kind)
         if sub is None:
             return None
         out.extend(sub)
